@@ -64,6 +64,7 @@ REG.contract(
     returns=T.bytes,
     ensures=["result == self.ghost_wire"],
     status="assumed",
+    when=lambda b: "ghost_wire" in getattr(b.get("self"), "fields", {}),
     props=["C15"],
     note="ASSUMED for the key-tag kernel only: the uncompressed wire form of an immutable record is a fixed octet "
          "string (ghost field); the per-type encoders are covered by the C02 contracts / bounded stand-in",
